@@ -56,7 +56,16 @@ def make_tube(ndim, g, T1=None):
     T = np.zeros((2,) + tube.dim[:ndim]) + g.get("Tbase", 0.0)
     T[1] = T[1] + np.asarray(T1, dtype=float).reshape((g["nr"],) + (1,) * (ndim - 1))
     tube.add_results("temperature", T)
-    emodel = elasticity.IsotropicLinearElasticModel(g.get("E", 150000.0), "youngs", g.get("nu", 0.3), "poissons")
+    E = g.get("E", 150000.0)
+    if g.get("Eslope"):
+        # temperature-dependent Young's modulus: g["E"] is its value at the END temperature of the (uniform) step,
+        # the value at the start temperature differs by Eslope * dT; the closed forms use the end value
+        from neml import interpolate
+        Tn, Tf = g.get("Tbase", 0.0), g.get("Tbase", 0.0) + g.get("dT", 0.0)
+        lo, hi = min(Tn, Tf), max(Tn, Tf)
+        Eat = lambda T: g["E"] + g["Eslope"] * (T - Tf)
+        E = interpolate.PiecewiseLinearInterpolate([-1.0e4, lo, hi, 1.0e4], [Eat(lo), Eat(lo), Eat(hi), Eat(hi)])
+    emodel = elasticity.IsotropicLinearElasticModel(E, "youngs", g.get("nu", 0.3), "poissons")
     mat = models.SmallStrainElasticity(emodel, alpha=g.get("al", 0.0))
     solver = structural.PythonTubeSolver(verbose=False)
     return structural, tube, solver, mat
@@ -783,6 +792,12 @@ def run(ctx):
     gz = gen_case(rng, dict(nr=4, nt=12, nz=3))
     gz.update(Tbase=250.0, dT=-250.0, al=1e-5, direct=False)
     jobs.append(("cross-cool-to-zero", 0, 200, gz, CrossJob, (gz, None, batch)))
+    # Young's modulus depends on temperature and the step changes the temperature: the elastic response is that of the
+    # modulus at the END temperature (the closed forms use g["E"], the start value is 20 % off)
+    ge = gen_case(rng, dict(nr=4, nt=12, nz=3))
+    ge.update(Tbase=300.0, dT=250.0, al=1e-5, direct=False)
+    ge["Eslope"] = -0.2 * ge["E"] / 250.0
+    jobs.append(("cross-E(T)", 0, 300, ge, CrossJob, (ge, None, batch)))
     built = []
     for kind, ndim, c, g, cls, args in jobs:
         try:
